@@ -186,3 +186,73 @@ Definition check_c19_status (c : c19_case) : bool * bool :=
    Bool.eqb (o_sandbox_left m) (o_sandbox_left o),
    P_C19 true (k_keep c) (k_tc c)
          (C19Obs (o_calls o) (if same_status then o_failure m else o_failure o) (o_sandbox_left o))).
+
+(** ** The test-case status ([conf] status = PASS | FAIL | SKIP).  The status REPORTED for a case is
+    [Outcome.translate_status mode (status of the failing step)]: an expiry must be reported
+    HARD_ERROR whatever the mode ([translate_status TFail (Some FHard) = HARD_ERROR]; only an assertion
+    FAIL becomes XFAIL, only "no failure" becomes XPASS).  The harness hands over the identifier exactly
+    as printed ([None]: --act without failure prints none); it is decoded here by inverting
+    [translate_status] for the mode; an identifier that the mode cannot produce is a failure of both
+    checks.  With SKIP nothing of the case runs: no process, no sandbox, SKIPPED. *)
+Definition decode_ident (mode : Outcome.tc_status) (act_only : bool) (i : option full_status) : option (option fail_status) :=
+  match i with
+  | None => if act_only then Some None else None
+  | Some PASS => match mode with TFail => None | _ => Some None end
+  | Some XPASS => match mode with TFail => Some None | _ => None end
+  | Some XFAIL => match mode with TFail => Some (Some FFail) | _ => None end
+  | Some FAIL => match mode with TFail => None | _ => Some (Some FFail) end
+  | Some HARD_ERROR => Some (Some FHard)
+  | Some INTERNAL_ERROR => Some (Some FInternal)
+  | Some VALIDATION_ERROR => Some (Some FValidation)
+  | Some SYNTAX_ERROR => Some (Some FSyntax)
+  | Some SKIPPED => None
+  end.
+
+Record c19_moded := C19Moded {
+  md_mode : Outcome.tc_status;
+  md_tc : tcase;
+  md_keep : bool;
+  md_calls : list ocall;
+  md_site : option (phase * nat);      (* failing phase / instruction as reported (not by the suite reporter) *)
+  md_ident : option full_status;       (* the exit identifier as printed *)
+  md_sandbox_left : bool;
+  md_status_only : bool }.             (* run by [exactly suite]: only the status is reported *)
+
+Definition moded_obs (c : c19_moded) : option c19_obs :=
+  match decode_ident (md_mode c) (t_act_only (md_tc c)) (md_ident c) with
+  | None => None
+  | Some st =>
+      Some (C19Obs (md_calls c)
+                   match st, md_site c with
+                   | None, _ => None
+                   | Some s, Some (p, i) => Some (p, i, s)
+                   | Some s, None => Some (Setup, 0, s)
+                   end
+                   (md_sandbox_left c))
+  end.
+
+Definition check_c19_moded (c : c19_moded) : bool * bool :=
+  match md_mode c with
+  | TSkip =>
+      let ok := match md_calls c with [] => true | _ => false end &&
+                match md_ident c with Some SKIPPED => true | _ => false end && negb (md_sandbox_left c) in
+      (ok, ok)
+  | _ =>
+      match moded_obs c with
+      | None => (false, false)
+      | Some o =>
+          if md_status_only c then check_c19_status (C19Case (md_tc c) (md_keep c) o)
+          else check_c19 (C19Case (md_tc c) (md_keep c) o)
+      end
+  end.
+
+Record c19_real_moded := C19RealM { rm_case : c19_moded; rm_wall_ms : N; rm_children_dead : bool }.
+Definition check_c19_real_moded (r : c19_real_moded) : bool * bool :=
+  let c := rm_case r in
+  match md_mode c with
+  | TSkip => check_c19_moded c
+  | _ => match moded_obs c with
+         | None => (false, false)
+         | Some o => check_c19_real (C19Real (md_tc c) (md_keep c) o (rm_wall_ms r) (rm_children_dead r))
+         end
+  end.
